@@ -354,9 +354,48 @@ def one_history(ctx, kind, factory, route, rng):
     ctx.evaluation((kind, route, case['span'], hist), nontrivial=True, sample=case)
 
 
+def uncopyable_attributes(ctx, K, rng):
+    """An attribute (or one element of an object-dtype variable) that cannot be deep-copied (a lock, a generator): the copy is
+    either refused or complete - never an object that quietly shares the attribute's other, ordinary mutable contents."""
+    import threading
+    for kind, factory in K.items():
+        for route in ('copy', 'copy.copy', 'copy.deepcopy'):
+            for where in ('attribute', 'object-variable'):
+                try:
+                    a = factory(range(2000, 2005))
+                except Exception:
+                    continue
+                case = {'kind': kind, 'route': route, 'uncopyable': where}
+                ctx.evaluation(('uncopyable', kind, route, where), nontrivial=True, sample=case)
+                try:
+                    if where == 'attribute':
+                        a.meta = {'lock': threading.Lock(), 'notes': ['n1'], 'table': np.zeros(3)}
+                    else:
+                        a.add_variable('OBJ', None, dtype=object)
+                        a.OBJ[0] = ['n1']
+                        a.OBJ[1] = (i for i in range(3))
+                except Exception:
+                    continue
+                try:
+                    b = {'copy': lambda: a.copy(), 'copy.copy': lambda: copy.copy(a), 'copy.deepcopy': lambda: copy.deepcopy(a)}[route]()
+                except Exception:
+                    ctx.count('uncopyable_copy_refused')
+                    continue
+                ctx.count('uncopyable_copy_made')
+                if where == 'attribute':
+                    shared = b.meta is a.meta or b.meta.get('notes') is a.meta['notes'] or np.shares_memory(b.meta.get('table', np.zeros(1)), a.meta['table'])
+                else:
+                    shared = b.OBJ is a.OBJ or np.shares_memory(b.OBJ, a.OBJ) or b.OBJ[0] is a.OBJ[0]
+                if shared:
+                    ctx.violation('shared-mutable-object', f'{route} of a {kind} holding an uncopyable object in an {where} returned an object that shares that {where}\'s other mutable contents with the original', case)
+                    return
+
+
 def run_shard(ctx):
     rng = ctx.rng('c11')
     K = kinds()
+    if ctx.shard == 0:
+        uncopyable_attributes(ctx, K, rng)
     count = ctx.pick(200, 6000)
     for i in range(count):
         kind = rng.choice(list(K))
